@@ -404,8 +404,8 @@ def c12() -> List[M]:
         M("C12", "bitmap22-low-word-from-high-offset", S, "read_bytes2(data, self.offset, 0) << 16 + read_bytes2(data, self._offsetL, 0)", "read_bytes2(data, self.offset, 0) << 16 + read_bytes2(data, self.offset + 6, 0)", "C12.R2"),
         M("C12", "rtu-offset-map-scale", P, "        return (address - self.first_address) * 2\n\n\nclass ModbusRtuReadCommand", "        return (address - self.first_address) * 4\n\n\nclass ModbusRtuReadCommand", "C12.R3"),
         M("C12", "response-seek-raw-address", P, "            self._bytes.seek(self.command.get_offset(address))", "            self._bytes.seek(address)", "C12.R3"),
-        M("C12", "apparent4-reads-two-bytes", S, "    \"\"\"Sensor representing apparent power [VA] value encoded in 4 bytes\"\"\"\n\n    def __init__(self, id_: str, offset: int, name: str, kind: Optional[SensorKind]):\n        super().__init__(id_, offset, name, 2, \"VA\", kind)\n\n    def read_value(self, data: ProtocolResponse):\n        return read_bytes4_signed(data)",
-          "    \"\"\"Sensor representing apparent power [VA] value encoded in 4 bytes\"\"\"\n\n    def __init__(self, id_: str, offset: int, name: str, kind: Optional[SensorKind]):\n        super().__init__(id_, offset, name, 2, \"VA\", kind)\n\n    def read_value(self, data: ProtocolResponse):\n        return read_bytes2_signed(data)", "C12.R1|C12.R4"),
+        M("C12", "apparent4-reads-two-bytes", S, "    \"\"\"Sensor representing apparent power [VA] value encoded in 4 bytes\"\"\"\n\n    def __init__(self, id_: str, offset: int, name: str, kind: Optional[SensorKind]):\n        super().__init__(id_, offset, name, 4, \"VA\", kind)\n\n    def read_value(self, data: ProtocolResponse):\n        return read_bytes4_signed(data)",
+          "    \"\"\"Sensor representing apparent power [VA] value encoded in 4 bytes\"\"\"\n\n    def __init__(self, id_: str, offset: int, name: str, kind: Optional[SensorKind]):\n        super().__init__(id_, offset, name, 4, \"VA\", kind)\n\n    def read_value(self, data: ProtocolResponse):\n        return read_bytes2_signed(data)", "C12.R1|C12.R4"),
         M("C12", "benign-voltage-conditional-flipped", S, "    value = int.from_bytes(buffer.read(2), byteorder=\"big\", signed=False)\n    return float(value) / 10 if value != 0xffff else 0\n\n\ndef encode_voltage",
           "    value = int.from_bytes(buffer.read(2), byteorder=\"big\", signed=False)\n    if value == 0xffff:\n        return 0\n    return value / 10\n\n\ndef encode_voltage", "clean"),
         M("C12", "benign-temp-sentinels-as-set", S, "    if value == -1 or value == 32767:", "    if value == 32767 or value == -1:", "clean"),
@@ -495,8 +495,8 @@ def c18() -> List[M]:
         M("C18", "et-dod-upper-unchecked", ET, "        if 0 <= dod <= 100:", "        if 0 <= dod:", "C18.R2"),
         M("C18", "et-eco-power-upper-1000", ET, "            if eco_mode_power < 0 or eco_mode_power > 100:\n                raise ValueError()", "            if eco_mode_power < 0 or eco_mode_power > 1000:\n                raise ValueError()", "C18.R2"),
         M("C18", "es-eco-soc-silently-ignored", ES, "            if eco_mode_soc < 0 or eco_mode_soc > 100:\n                raise ValueError()", "            if eco_mode_soc < 0 or eco_mode_soc > 100:\n                return", "C18.R2"),
-        M("C18", "es-eco-check-after-request", ES, "            if eco_mode_power < 0 or eco_mode_power > 100:\n                raise ValueError()\n            if eco_mode_soc < 0 or eco_mode_soc > 100:\n                raise ValueError()\n            eco_mode: EcoMode | Sensor = self._settings.get('eco_mode_1')\n            await self._read_setting(eco_mode)",
-          "            eco_mode: EcoMode | Sensor = self._settings.get('eco_mode_1')\n            await self._read_setting(eco_mode)\n            if eco_mode_power < 0 or eco_mode_power > 100:\n                raise ValueError()\n            if eco_mode_soc < 0 or eco_mode_soc > 100:\n                raise ValueError()", "C18.R2"),
+        M("C18", "es-eco-check-after-request", ES, "            if eco_mode_power < 0 or eco_mode_power > 100:\n                raise ValueError()\n            if eco_mode_soc < 0 or eco_mode_soc > 100:\n                raise ValueError()\n            eco_mode: EcoMode | Sensor = self._settings.get('eco_mode_1')\n            # Load the current values to try to detect schedule type\n            try:\n                await self._read_setting(eco_mode)\n            except ValueError:\n                pass\n",
+          "            eco_mode: EcoMode | Sensor = self._settings.get('eco_mode_1')\n            # Load the current values to try to detect schedule type\n            try:\n                await self._read_setting(eco_mode)\n            except ValueError:\n                pass\n            if eco_mode_power < 0 or eco_mode_power > 100:\n                raise ValueError()\n            if eco_mode_soc < 0 or eco_mode_soc > 100:\n                raise ValueError()\n", "C18.R2"),
         M("C18", "es-charge-limit-upper-unchecked", ES, "        if limit < 0 or limit > 100:\n            raise ValueError()\n        await self._read_from_socket(Aa55ProtocolCommand(\n            f\"032c05", "        if limit < 0:\n            raise ValueError()\n        await self._read_from_socket(Aa55ProtocolCommand(\n            f\"032c05", "C18.R2"),
         M("C18", "benign-et-export-limit-early-return", ET, "        if export_limit >= 0:\n            await self.write_setting('grid_export_limit', export_limit)", "        if export_limit < 0:\n            return\n        await self.write_setting('grid_export_limit', export_limit)", "clean"),
         M("C18", "et-unknown-id-silently-ignored", ET, "            if setting_id.startswith(\"modbus\"):\n                await self._read_from_socket(self._write_command(int(setting_id[7:]), int(value)))\n            else:\n                raise ValueError(f'Unknown setting \"{setting_id}\"')",
@@ -583,6 +583,11 @@ def c03() -> List[M]:
         M("C03", "tx-stamp-wrong-slice", P, "        self.request = _next_tx() + self.request[2:]", "        self.request = _next_tx() + self.request[1:]", "C03.R4"),
         M("C03", "tcp-retransmits-same-tx", P, "        payload = command.request_bytes()\n        if self._retry > 0:\n            logger.debug(\"Sending: %s - retry #%s/%s\", self.command, self._retry, self.retries)\n        else:\n            logger.debug(\"Sending: %s\", self.command)\n        self._transport.write(payload)",
           "        payload = command.request\n        if self._retry > 0:\n            logger.debug(\"Sending: %s - retry #%s/%s\", self.command, self._retry, self.retries)\n        else:\n            logger.debug(\"Sending: %s\", self.command)\n        self._transport.write(payload)", "C03.R4"),
+        M("C03", "tx-stamped-per-execute", P, "    def request_bytes(self) -> bytes:\n        \"\"\"Return raw bytes payload, optionally pre-processed\"\"\"\n        # Apply sequential Modbus/TCP transaction identifier\n        self.request = _next_tx() + self.request[2:]\n        return self.request\n",
+          "    async def execute(self, protocol: InverterProtocol) -> ProtocolResponse:\n        self.request = _next_tx() + self.request[2:]\n        return await super().execute(protocol)\n", "C03.R4"),
+        M("C03", "benign-tx-stamped-in-send-request", P, "        payload = command.request_bytes()\n        if self._retry > 0:\n            logger.debug(\"Sending: %s - retry #%s/%s\", self.command, self._retry, self.retries)\n        else:\n            logger.debug(\"Sending: %s\", self.command)\n        self._transport.write(payload)",
+          "        payload = command.request_bytes()\n        payload = _next_tx() + payload[2:]\n        command.request = payload\n        if self._retry > 0:\n            logger.debug(\"Sending: %s - retry #%s/%s\", self.command, self._retry, self.retries)\n        else:\n            logger.debug(\"Sending: %s\", self.command)\n        self._transport.write(payload)", "clean",
+          also=[(P, "        # Apply sequential Modbus/TCP transaction identifier\n        self.request = _next_tx() + self.request[2:]\n        return self.request", "        return self.request")]),
         M("C03", "benign-tx-wrap-at-65536", P, "    if _modbus_tcp_tx == 0xFFFF:\n        _modbus_tcp_tx = 1", "    if _modbus_tcp_tx == 0x10000:\n        _modbus_tcp_tx = 1", "clean"),
     ]
 
@@ -613,6 +618,10 @@ def c19() -> List[M]:
         M("C19", "recogniser-needs-all-eight-bits", S, "            and self.on_off == (-1 - self.schedule_type) \\\n            and self.day_bits == 127 \\\n            and self.power < 0 \\", "            and self.on_off == (-1 - self.schedule_type) \\\n            and self.day_bits == -1 \\\n            and self.power < 0 \\", "C19.R4"),
         M("C19", "encode-power-745-x100", S, "        if self == ScheduleType.ECO_MODE_745:\n            return value * 10\n        return value", "        if self == ScheduleType.ECO_MODE_745:\n            return value * 100\n        return value", "C19.R4"),
         M("C19", "range-745-too-narrow", S, "            return -1000 <= value <= 1000", "            return -100 <= value <= 100", "C19.R4"),
+        M("C19", "revert-fix-es-forces-eco-type", ES, "            eco_mode.set_schedule_type(ScheduleType.ECO_MODE, False)\n", "", "C19.R6"),
+        M("C19", "et-type-forced-only-after-successful-read", ET, "            try:\n                await self._read_sensor(eco_mode)\n            except ValueError:\n                pass\n            eco_mode.set_schedule_type(ScheduleType.ECO_MODE, is_745_platform(self))",
+          "            try:\n                await self._read_sensor(eco_mode)\n                eco_mode.set_schedule_type(ScheduleType.ECO_MODE, is_745_platform(self))\n            except ValueError:\n                pass", "C19.R6"),
+        M("C19", "et-forces-peak-shaving-type", ET, "            eco_mode.set_schedule_type(ScheduleType.ECO_MODE, is_745_platform(self))", "            eco_mode.set_schedule_type(ScheduleType.PEAK_SHAVING, is_745_platform(self))", "C19.R6"),
         M("C19", "et-dod-written-raw", ET, "            await self.write_setting('battery_discharge_depth', 100 - dod)", "            await self.write_setting('battery_discharge_depth', dod)", "C19.R5"),
         M("C19", "et-dod-getter-other-base", ET, "        return 100 - await self.read_setting('battery_discharge_depth')", "        return 99 - await self.read_setting('battery_discharge_depth')", "C19.R5"),
         M("C19", "es-dod-sent-raw", ES, "Aa55WriteCommand(0x560, 100 - dod)", "Aa55WriteCommand(0x560, dod)", "C19.R5"),
